@@ -913,6 +913,12 @@ func prc(sb *strings.Builder, t *Term, o PrintOpts, c pctx) {
 		sb.WriteByte(')')
 	case KCond:
 		prc(sb, t.Sub[0], o, pctx{noCond: true})
+		if t.Sub[0] == t.Sub[1] {
+			// a ?: b (the condition is also the first arm)
+			sb.WriteString(" ?: ")
+			prc(sb, t.Sub[2], o, inner)
+			return
+		}
 		sb.WriteString(" ? ")
 		prc(sb, t.Sub[1], o, inner)
 		sb.WriteString(" : ")
